@@ -628,3 +628,27 @@ func isNestGuard(c *Ctx, g *ssa.Function) bool {
 	}
 	return inc && cmp
 }
+
+// setShrinks: the function deletes entries from a map parameter that it passes on at the call site: the set
+// is the path currently being walked, not the set of everything already walked.
+func setShrinks(f *ssa.Function, site ssa.CallInstruction) bool {
+	cc := site.Common()
+	for _, a := range cc.Args {
+		mp, ok := a.(*ssa.Parameter)
+		if !ok {
+			continue
+		}
+		if _, isMap := mp.Type().Underlying().(*types.Map); !isMap {
+			continue
+		}
+		for _, b := range f.Blocks {
+			for _, in := range b.Instrs {
+				ci, ok := in.(ssa.CallInstruction)
+				if ok && isBuiltinCall(ci, "delete") && len(ci.Common().Args) > 0 && ci.Common().Args[0] == ssa.Value(mp) {
+					return true
+				}
+			}
+		}
+	}
+	return false
+}
